@@ -192,6 +192,22 @@ mod hot {
         pub fn put(&self, id: &str, v: u64) {
             self.files.lock().unwrap().insert(id.to_string(), v.to_string().into_bytes());
         }
+        /// After the cache is dropped: wait until the reloader thread has let go of its end of the event channel
+        /// (it does so when its function returns), then give it the time to terminate. Miri reports a main thread
+        /// that ends while another thread is still running as an error of the *program*; here it would only be an
+        /// artefact of the kernel (the reloader is detached by design), so the kernel waits.
+        pub fn wait_reloader_gone(&self) {
+            let tx = self.tx.lock().unwrap().take();
+            if let Some(tx) = tx {
+                for _ in 0..10_000 {
+                    if tx.send(OwnedDirEntry::File("none".into(), "v".into())).is_err() {
+                        break;
+                    }
+                    std::thread::sleep(std::time::Duration::from_millis(1));
+                }
+            }
+            std::thread::sleep(std::time::Duration::from_millis(20));
+        }
         pub fn notify(&self, id: &str) {
             if let Some(tx) = &*self.tx.lock().unwrap() {
                 let _ = tx.send(OwnedDirEntry::File(id.into(), "v".into()));
@@ -341,6 +357,7 @@ mod hot {
             }
         });
         drop(cache);
+        mem.wait_reloader_gone();
     }
 }
 
